@@ -1,4 +1,4 @@
-import MgpuProofs.C17WLive5
+import MgpuProofs.C17WLive6
 /-! # C17 — bounded-latency liveness of the repaired `simplebankedmemory` for EVERY pipeline width
 
 With several lanes the position of an item (lane, stage) says nothing about its age: the oldest request of a bank can sit
@@ -161,5 +161,32 @@ def lv1 : Cfg := ⟨1, 6, 1, 5, 1, 0, 0, 1, 2, none, none⟩
 example : lvA ∈ (runW lv1 ([.deliver .wr 0 1 [0xaa] none, .tick, .tick] ++ List.replicate 63 .tick)).resp.map (·.req) :=
   liveness_bounded_one_lane_corollary lv1 rfl (by decide) (by decide) _ _ 0 lvA _ [] [] ⟨rfl, by decide +kernel⟩
     (by decide +kernel) (by decide +kernel)
+
+/-! ### the `noPanicW` hypothesis follows from well-formed traffic -/
+
+/-- **No panic on well-formed traffic, every width** (so far only known for one lane, through the refinement): if every
+delivered request has a mask at least as long as its data, an address the bank address converter accepts and a footprint
+the storage accepts (`opOk`), no tick of any reachable state of the repaired component panics. -/
+theorem no_panic_all_widths (c : Cfg) (ops : List Op) (hok : ∀ op ∈ ops, opOk c op) :
+    (tickFlagsW c (runW c ops)).2 = none :=
+  tick_nofaultW c _ (run_invW c ops) (run_arrOk c ops _ hok (fun _ h => by cases h))
+
+/-- **Bounded-latency liveness for every width and depth, on well-formed traffic**: `liveness_bounded_all_widths` with
+the hypothesis of the one-lane theorem (`opOk` on all operations) instead of "the run does not panic". -/
+theorem liveness_bounded_all_widths_ok_traffic (c : Cfg) (hd0 : 0 < c.depth) (hp0 : 0 < c.post) (ops1 ops2 : List Op)
+    (hok : ∀ op ∈ ops1 ++ ops2, opOk c op) (k : Nat) (x : Req) (b : WBank) (pre suf : List Req)
+    (hx : InOrderAt (runW c ops1) k x b pre suf)
+    (hn : (pre.length + 1) * potBound c ≤ acceptingTicksW c k (runW c ops1) ops2) :
+    x ∈ (runW c (ops1 ++ ops2)).resp.map (·.req) :=
+  liveness_bounded_all_widths c hd0 hp0 ops1 ops2 k x b pre suf hx
+    (noPanicW_of_ok c ops2 _ (fun op h => hok op (by simp [h])) (run_invW c ops1)
+      (run_arrOk c ops1 _ (fun op h => hok op (by simp [h])) (fun _ h => by cases h))) hn
+
+example : (tickFlagsW lv2 (runW lv2 (lv2pre ++ [.tick, .tick]))).2 = none :=
+  no_panic_all_widths lv2 _ (by decide +kernel)
+
+example : lvB ∈ (runW lv2 (lv2pre ++ List.replicate 54 .tick)).resp.map (·.req) :=
+  liveness_bounded_all_widths_ok_traffic lv2 (by decide) (by decide) lv2pre _ (by decide +kernel) 0 lvB _ [lvA] []
+    ⟨rfl, by decide +kernel⟩ (by decide +kernel)
 
 end C17
